@@ -378,13 +378,23 @@ def shrink_program(src, kind, transports, budget_s):
   return "\n".join("\n".join(b) for b in bl)
 
 
-def e2e(res, r, n_programs, n_workers, budget_s, corpus_programs):
+def e2e(res, r, n_programs, n_workers, budget_s, corpus_programs, corpus_chains=(), n_chains=0):
   import c06_e2e as E
   jobs = [{"id": "corpus%d" % i, "src": s} for i, s in enumerate(corpus_programs)]
+  # module chains (u <- a <- b with alias imports, nested classes, decoys, packages) run before the random programs:
+  # they are part of the floor, so every run analyses all of them whatever the load of the machine is
+  rc = common.rng(res.seed, "c06-chain")
+  for i, ch in enumerate(corpus_chains):
+    jobs.append({"id": "cchain%d" % i, "kind": "chain", "chain": ch, "src": ch["modules"][-2][2]})
+  for i in range(n_chains):
+    ch = E.gen_chain(rc)
+    jobs.append({"id": "chain%d" % i, "kind": "chain", "chain": ch, "src": ch["modules"][-2][2]})
+  n_first = len(jobs)
   for i in range(n_programs):
     jobs.append({"id": "p%d" % i, "src": E.gen_program(r)})
   t0 = time.time()
-  results = run_workers(jobs, n_workers, t0 + budget_s, floor=min(len(jobs), 12))
+  floor = min(len(jobs), max(12, n_first + 3))
+  results = run_workers(jobs, n_workers, t0 + budget_s, floor=floor)
   wall = time.time() - t0
   by_id = {j["id"]: j for j in jobs}
   stats = {}
@@ -416,6 +426,16 @@ def e2e(res, r, n_programs, n_workers, budget_s, corpus_programs):
         report(res, iss["kind"], iss["what"],
                {"kind": "program", "src": src, "A_source": rr.get("src_a"), "B_source": rr.get("src_b"),
                 "transport": iss["transport"]})
+    if st == "violation" and by_id[jid].get("kind") == "chain":
+      reported += 1
+      fp = "chain-%s:%s" % (rr.get("kind"), rr.get("transport"))
+      ch = by_id[jid]["chain"]
+      # smaller replay: the same chain restricted to the probes that fail (or to the first error)
+      bad = [i["name"] for i in rr.get("issues", [])] or None
+      report(res, fp, "[%s] %s" % (rr.get("transport"), rr.get("what")),
+             {"kind": "chain", "chain": ch, "transport": rr.get("transport"), "failing_probes": bad,
+              "detail": {k: rr.get(k) for k in ("what", "name", "source", "stub_a", "stub_0", "stub_1", "trace") if k in rr}})
+      continue
     if st == "violation":
       reported += 1
       kind = rr.get("kind")
@@ -446,7 +466,16 @@ def e2e(res, r, n_programs, n_workers, budget_s, corpus_programs):
         break
   done = len(results)
   # the budget is wall time (the machine is shared): require a floor, record the number reached
-  res.obligation("e2e:programs-analysed", done >= min(len(jobs), 12) and stats.get("skip", 0) <= done // 4,
+  chains_done = [j for j in results if by_id[j].get("kind") == "chain"]
+  res.obligation("e2e:module-chains-analysed", len(chains_done) == n_first - len(corpus_programs) and
+                 all(results[j].get("status") != "skip" for j in chains_done),
+                 "%d of %d module chains finished (skips count as unfinished)" % (len(chains_done), n_first - len(corpus_programs)))
+  res.extra["e2e_module_chains"] = len(chains_done)
+  res.extra["e2e_module_chain_layouts"] = {}
+  for j in chains_done:
+    k = by_id[j]["chain"].get("layout")
+    res.extra["e2e_module_chain_layouts"][k] = res.extra["e2e_module_chain_layouts"].get(k, 0) + 1
+  res.obligation("e2e:programs-analysed", done >= floor and stats.get("skip", 0) <= done // 4,
                  "%d of %d programs finished within the %ds budget; %r" % (done, len(jobs), budget_s, stats))
   res.extra["e2e_programs"] = done
   res.extra["e2e_status"] = stats
@@ -464,6 +493,16 @@ def e2e(res, r, n_programs, n_workers, budget_s, corpus_programs):
   res.extra["e2e_constructed_probes_without_declared_type_not_decided"] = n_undecided
   res.extra["e2e_known_finding_programs"] = known_hits
   res.extra["e2e_wall_s"] = round(wall, 1)
+
+
+def load_corpus_chains():
+  out = []
+  cdir = os.path.join(common.CORPUS, "C06")
+  for f in sorted(os.listdir(cdir)) if os.path.isdir(cdir) else []:
+    d = json.load(open(os.path.join(cdir, f)))
+    if d.get("kind") == "chain":
+      out.append(d["chain"])
+  return out
 
 
 def load_corpus():
@@ -534,7 +573,8 @@ def run(res):
   n_batches = 40 if thorough else 3
   c06_decl.leg(res, common.rng(res.seed, "c06-decl"), n_batches, 3, report)
   n_prog, budget = (4000, 720) if thorough else (400, 50)
-  e2e(res, common.rng(res.seed, "c06-e2e"), n_prog, 4, budget, corpus_programs)
+  e2e(res, common.rng(res.seed, "c06-e2e"), n_prog, 4, budget, corpus_programs, load_corpus_chains(),
+      n_chains=200 if thorough else 6)
   if thorough:
     ok, out = common_coqchk("C06")
     res.obligation("coqchk", ok, out[-1500:])
@@ -574,6 +614,15 @@ def replay(res, path):
       bad = bad or not same
     print("downstream errors:", errs)
     return 1 if bad or any(e[0] in ("import-error", "pyi-error") for e in errs) else 0
+  if rep.get("kind") == "chain":
+    r = E.check_chain(rep["chain"], os.path.join(WORK, "replay"))
+    for path, name, src in rep["chain"]["modules"]:
+      print("--- module %s (%s.py)\n%s" % (name, path, src))
+    print("--- a's stub (last transport analysed)\n" + str(r.get("stub_a")))
+    print("--- verdict:", r.get("status"), r.get("kind"), r.get("transport"), r.get("what"))
+    for i in r.get("issues", []):
+      print("issue:", i["transport"], i["kind"], i["what"])
+    return 1 if r.get("status") == "violation" or r.get("issues") else 0
   src = rep["src"]
   r = E.check_pair(src, os.path.join(WORK, "replay"))
   print("--- upstream source (with the probe expressions appended)\n" + str(r.get("src_a") or src))
